@@ -99,6 +99,19 @@ CHECKS = {
         technique="TLA+ pipeline protocol + guard tables + exact FusedMatMul term rewriting, TLC exhaustive over configuration tuples, spec-directed replay on ORT",
         design_ref="DESIGN.md section 4 C19",
     ),
+    "C09": dict(
+        level="model_checking",
+        text="SymShape.tla derives models whose inputs carry literal, named (repeated) and unnamed dims and mix data ops with shape computations, and runs "
+             "one pass of FoldConstantsPass step by step (input resolution + node-level shape inference, one action per partial evaluator: Shape, Size, "
+             "Gather, Add with composite symbols, Abs, Reshape, Squeeze, Cast, Identity backward merge, Concat, Expand, generic folding) on the code's own "
+             "state (symbolic value map, value shapes, constants); Finish evaluates original and folded graph under every binding of the free dims to "
+             "{0,1,2,3,7}; DesignSound/ShapesSound. Every emitted model is folded once by the real fold_constants (symbolic_value_map, shapes and per-node "
+             "decisions compared with the spec) and optimized once, then original and optimized run on ORT at every binding.",
+        note="rewrite rules are exercised through the real optimize() but modelled in C05; <=2 inputs of rank <=3, exhaustive to 2 nodes + 3-node chains, "
+             "deeper models by seeded simulation; bindings ORT rejects on the original are discarded",
+        technique="TLA+ model of the folder's symbolic shape reasoning, TLC exhaustive + simulation, one optimize per model and many shape bindings on ORT",
+        design_ref="DESIGN.md section 4 C09",
+    ),
     "C10": dict(
         level="model_checking",
         text="VersionConvert.tla models convert_version as a pipeline of named steps (entry form, inline, path decision, per-node adapter steps incl. "
